@@ -192,13 +192,20 @@ def run_input_case(case, ctx):
     N, dt = rnd.choice([11, 40, 200]), 1e-3 if rnd.random() < 0.5 else 1e-2
     arr = np.linspace(0.0, rnd.uniform(5.0, 10.0), N) if rnd.random() < 0.5 else 3.0 * np.sin(np.linspace(0.0, 6.0, N))
     path = f'{node}/{opn}/{v_in}'
-    res = {'features': ['jacobian_with_extrinsic_input', f'N{N}'], 'risk': [], 'sig': stable_hash([spec, N, dt]), 'nontrivial': True}
+    # fixed-step solvers read sample k of the input at integration step k (t is the integer step counter there); the identity is
+    # the same: J(k, y) is the matrix of partial derivatives of f(k, y)
+    solver = rnd.choice(['scipy', 'scipy', 'euler', 'heun'])
+    res = {'features': ['jacobian_with_extrinsic_input', f'N{N}', 'solver_' + solver], 'risk': [], 'sig': stable_hash([spec, N, dt, solver]),
+           'nontrivial': True}
     try:
         try:
-            obs = observe.compile_vf(spec, vectorize=False, solver='scipy', step_size=dt, inputs={path: arr.copy()})
+            obs = observe.compile_vf(spec, vectorize=False, solver=solver, step_size=dt, inputs={path: arr.copy()})
             tmpl, _ = build.build_python(spec)
             J, jargs, jnames, jsmap = tmpl.get_jacobian_func('jac', step_size=dt, vectorize=False, verbose=False, clear=True, in_place=False,
-                                                             float_precision='float64', solver='scipy', inputs={path: arr.copy()})
+                                                             float_precision='float64', solver=solver, inputs={path: arr.copy()})
+            if solver != 'scipy':
+                np.asarray(J(*jargs), dtype=float)      # the returned arguments are valid arguments of the returned function
+                mech['fixed_step_input_jacobians'] = 1
         except Exception as e:
             import traceback
             raise observe.Mismatch(f"loud: get_run_func / get_jacobian_func with inputs raised {type(e).__name__}: {e} :: {traceback.format_exc()[-300:]}")
@@ -207,12 +214,15 @@ def run_input_case(case, ctx):
         n = len(np.asarray(obs['args'][1]))
         T = N * dt
         for pt in range(4):
-            t = rnd.uniform(0.15, 0.9) * T
+            t = rnd.uniform(0.15, 0.9) * T if solver == 'scipy' else rnd.randrange(1, N - 1)
             y = np.array([rnd.gauss(0, 0.8) for _ in range(n)])
             Jfd, Jc = fd_jac(lambda yv: observe.call_vf(obs, obs['args'], yv.copy(), t=t), y)
             if not np.allclose(Jfd, Jc, rtol=1e-5, atol=1e-7):
                 continue
-            J0 = np.asarray(J(t, y.copy(), *list(jargs)[2:]), dtype=float)
+            try:
+                J0 = np.asarray(J(t, y.copy(), *list(jargs)[2:]), dtype=float)
+            except Exception as e:
+                raise observe.Mismatch(f"loud: Jacobian function of a model with an extrinsic input (solver {solver}) raised {type(e).__name__}: {e}")
             if J0.shape[0] < n:
                 raise observe.Mismatch(f"Jacobian has shape {J0.shape} for a state vector of length {n}")
             err = np.abs(J0[:n, :n] - Jfd)
